@@ -333,11 +333,11 @@ def check_seg(rows, samples, enumerated, rel_tol, claim_distinct=True):
             mapping.setdefault(w[1], set()).add(str(g[1]))
     if enumerated and claim_distinct:
         if any(len(v) > 1 for v in mapping.values()):
-            problems.append(("with renumbering, one chromosome gets one id", "enumerate/one-name-two-ids", "a function", {k: sorted(v) for k, v in mapping.items()}))
+            problems.append(("with renumbering, one chromosome gets one id", "renumbering/one-name-two-ids", "a function", {k: sorted(v) for k, v in mapping.items()}))
         ids = [i for v in mapping.values() for i in v]
         if len(set(ids)) < len(ids):
             problems.append(
-                ("with renumbering, different chromosomes stay different", "enumerate/chrom-collision", "distinct ids for distinct chromosomes", {k: sorted(v) for k, v in mapping.items()})
+                ("with renumbering, different chromosomes stay different", "renumbering/chrom-collision", "distinct ids for distinct chromosomes", {k: sorted(v) for k, v in mapping.items()})
             )
     return problems
 
